@@ -567,7 +567,26 @@ pub fn shard(ctx: &Ctx) -> Shard {
     while sub.time_left() {
         let mut cfg = random_cfg(&mut rng, p.n_keys, p.n_meta, Some(true));
         cfg.max_dirty = *rng.pick(&[None, None, Some(0), Some(100)]);
-        let ops = gen_history(&mut rng, &p);
+        let mut ops = gen_history(&mut rng, &p);
+        // one history in six starts with 30..90 records over two or three keys with tied timestamps (markers among
+        // them) in one blob: after a crash the index of such a blob is regenerated from that many records
+        if rng.chance(1, 6) {
+            let m = rng.range(30, 90);
+            let nk = rng.range(2, 3);
+            let mut pre = Vec::new();
+            for _ in 0..m {
+                let k = rng.below(nk) as u16;
+                let ts = rng.below(3);
+                if rng.chance(1, 7) {
+                    pre.push(Op::Del { k, ts, meta: None, only_if: false });
+                } else {
+                    pre.push(Op::Put { k, ts, meta: None, size: rng.range(8, 24) as u32 });
+                }
+            }
+            pre.extend(ops);
+            ops = pre;
+            sh.add("histories_fat_blob", 1);
+        }
         let hid = ((ctx.shard as u64) << 20) | n;
         match cfg.keylen {
             4 => eval_history::<4>(&sub, &mut sh, &mut rng, &cfg, &ops, hid),
